@@ -174,8 +174,10 @@ class Crate:
                 g.attr = None
             paths = set(d["path"] for d in g.defs)
             roots = [d for d in g.defs if d.get("parent") not in paths and d["kind"] != "Use"]
-            mods = [d for d in roots if d["kind"] == "Mod"]
-            inh = [d for d in roots if d["kind"] == "Impl" and d.get("of_trait") is None]
+            # items produced by nested foreign macros (unimock's mock API module, ...) do not decide the mode
+            own = [d for d in roots if all(is_entrait_macro(e) for e in d["expn"])]
+            mods = [d for d in own if d["kind"] == "Mod"]
+            inh = [d for d in own if d["kind"] == "Impl" and d.get("of_trait") is None]
             fns = [d for d in roots if d["kind"] == "Fn"]
             if mods:
                 g.mode = "mod"
